@@ -50,6 +50,8 @@ class Vars(list):
     memo = None
     cmemo = None
     cused = None
+    smemo = None
+    sused = None
 
 
 def build_term(t, V):
@@ -157,10 +159,20 @@ def build_cond(c, V):
     if k == "const":
         return bool(c[1])
     if k == "sub":
+        smemo = getattr(V, "smemo", None)
+        if smemo is not None:
+            # sub-query OBJECTS built once (q1 = an(entity(x, c))) and used in several places: on their own, in an earlier
+            # enclosing query, in this one (never twice within ONE query: V.sused is cleared between queries)
+            key = json.dumps(c, sort_keys=True)
+            if key in smemo and key not in V.sused:
+                V.sused.add(key)
+                return smemo[key]
         inner = build_cond(c[3], V)
-        if c[1] == "entity":
-            return an(entity(V[c[2][0]], inner))
-        return an(set_of([V[i] for i in c[2]], inner))
+        q = an(entity(V[c[2][0]], inner)) if c[1] == "entity" else an(set_of([V[i] for i in c[2]], inner))
+        if smemo is not None and key not in smemo:
+            smemo[key] = q
+            V.sused.add(key)
+        return q
     raise ValueError(c)
 
 
